@@ -111,6 +111,7 @@ func mustFail(what string) func(o debOutcome) string {
 // ---- C14 ------------------------------------------------------------------------------
 
 func checkC14(p *Prog, rp *Report) {
+	defer stateRule(p, rp, "C14-STATE", p.Func("deb", "Load"), p.Func("deb", "LoadFile"), p.Method("deb", "ArEntry", "Tarfile"))
 	rp.Explanation = "The .deb loader is interpreted abstractly on scripted archives (the ar iterator, bufio, the decompressor constructors, archive/tar, control.Unmarshal and Close are oracles recording provenance; every iteration order of the member map is explored). C14-FORMAT: a package without debian-binary, with a format other than major version 2, without control.* or without data.* is rejected with no Deb; the well-formed layouts load. C14-CODECS: for each of the six encodings of control and data the stream is data(member) wrapped by exactly the matching constructor (xz with the default dictionary limit), then tar; a constructor error fails the load; IsTarfile table. C14-EXT: ControlExt/DataExt are the member name after \"control.\" / \"data.\". C14-CONTROL: the tar entry whose cleaned path is control (in any position) is unmarshalled into Deb.Control from the control member's tar stream; a missing entry, an unmarshal error and a close error fail the load. C14-DATA: Deb.Data is the data member's tar stream, unread. C14-DET: with decoy control.*/data.* members every iteration order gives the same outcome (an error). C14-INDEX: ArContent lists exactly the members; a repeated name is rejected."
 	rp.NotDecided = "behaviour of archive/tar and of the decompressors; equality of the exposed payload with the packaged files; dpkg-deb compatibility."
 	rp.Trusted = []string{"go/types, go/ssa", "deb(5) member names, format version and compression extensions", "archive/tar, compress/*, xz, lzma, zstd libraries"}
@@ -506,6 +507,21 @@ func c15Bounds(p *Prog, r *Rule) {
 // ---- C16 ------------------------------------------------------------------------------
 
 func checkC16(p *Prog, rp *Report) {
+	defer func() {
+		// a decoy member whose data runs past the end of the file must stop the iteration with an error that no
+		// caller can take for the clean end (the loader and the verifier only see members the iteration hands out)
+		r := rp.Rule("C16-CUTDECOY", "a member cut short ends the iteration with an error, never with (a wrapped) io.EOF", 1)
+		b := arConcrete(p)
+		pos := ""
+		if next := p.Method("deb", "Ar", "Next"); next != nil {
+			pos = p.Pos(next.Pos())
+		}
+		if b.undecided != "" {
+			r.undecided("deb.Ar.Next", pos, b.undecided)
+			return
+		}
+		fillProblems(r, "deb.Ar.Next", pos, b.problems["TRUNC"], "archives cut inside the data of their last member: the iteration fails, and not with an error that errors.Is takes for io.EOF")
+	}()
 	defer stateRule(p, rp, "C16-STATE", p.Func("deb", "Load"), p.Method("deb", "Deb", "CheckDebsig"))
 	rp.Explanation = "CheckDebsig is interpreted abstractly on a Deb whose member index holds debian-binary, control.tar.gz, data.tar.xz and _gpgorigin (plus decoys), with Seek, io.MultiReader and openpgp.CheckDetachedSignature replaced by recording oracles, over every iteration order of the member map. C16-ROLE: only the exact member \"_gpg\"+role is used as signature: an absent role, a prefix of a role and the empty role fail; a missing debian-binary fails. C16-STREAM: the signed data is MultiReader(debian-binary, control, data) in that order, each rewound with Seek(0,0) before, the signature is the role member's data, the keyring is the caller's, and the library's entity and error are returned unchanged; a second check of the same Deb against another keyring is verified again, against that keyring. C16-SAME: with a decoy control.* or data.* member verification fails in every iteration order, and the loader (same scenarios) fails too, so the verified members are the loaded members; repeated names are rejected by the loader."
 	rp.NotDecided = "the OpenPGP library; the bytes of the members (io.SectionReader); that the data member handed to the caller as Deb.Data is re-read from the start by the verifier."
